@@ -272,6 +272,36 @@ func foldsOnto(s *typeSpec, key string) string {
 	return ""
 }
 
+// explainedByVariant: does the decoded value of a scalar claim equal the value of one of the case-variant custom
+// keys? Only then is a difference filed under the case-folded-key class; any other difference keeps its own
+// round-trip key. Structured claims (lists, address, actor, events, locale) are merged member-wise by the decoder,
+// so for them the presence of a variant key is the explanation.
+func explainedByVariant(fd *field, got any, custom map[string]any, variants []string) bool {
+	for _, k := range variants {
+		cv := custom[k]
+		switch fd.kind {
+		case kString:
+			if s, ok := cv.(string); ok && s == got.(string) {
+				return true
+			}
+		case kTime:
+			if fl, ok := cv.(float64); ok && fl >= -9223372036854775808.0 && fl < 9223372036854775808.0 && int64(fl) == got.(int64) {
+				return true
+			}
+		case kBool, kTolBool:
+			if b, ok := cv.(bool); ok && b == got.(bool) {
+				return true
+			}
+			if s, ok := cv.(string); ok && s == "true" && got.(bool) {
+				return true
+			}
+		default:
+			return true
+		}
+	}
+	return false
+}
+
 // variantKeys returns the custom keys that are case / fold variants (not exact) of name.
 func variantKeys(custom map[string]any, name string) []string {
 	var out []string
@@ -397,7 +427,7 @@ func compareDecoded(v *value, rv reflect.Value, claims func(string) (any, bool),
 			out = append(out, issue{class: "fold", typ: s.name, site: s.site, field: fd.name,
 				detail: fmt.Sprintf("%s: %q was %s; after Marshal+Unmarshal it is %s - the enclosing actor was first filled from the custom claim %q, which Go's JSON decoding folds onto \"act\", and the registered actor was then decoded into the same struct",
 					s.name, fd.name, show(val), show(got), foldCtx)})
-		case set && len(variants) > 0:
+		case set && len(variants) > 0 && explainedByVariant(fd, got, v.custom, variants):
 			out = append(out, issue{class: "fold", typ: s.name, site: s.site, field: fd.name,
 				detail: fmt.Sprintf("%s: %q was set to %s; after Marshal+Unmarshal the field holds %s - the value of the custom claim %q, which Go's JSON decoding folds onto %q",
 					s.name, fd.name, compact(encode(fd, val)), show(got), variants[len(variants)-1], fd.name)})
